@@ -18,14 +18,14 @@ package elastic
 //@   entry row dofail:  [call context.WithTimeout(ctx, c.dataTimeout) as (c2, cf) ; call http.NewRequestWithContext(c2, "GET", url, _) as (rq, e) ; call Do(c.client, rq) as (resp, e2) ; call cancel()]
 //@                         when e == nil && e2 != nil && ret1 == e2 -> exit
 //@   entry row decfail: [call context.WithTimeout(ctx, c.dataTimeout) as (c2, cf) ; call http.NewRequestWithContext(c2, "GET", url, _) as (rq, e) ; call Do(c.client, rq) as (resp, e2) ;
-//@                       call json.NewDecoder(_) as (dec) ; call Decode(dec, _) as (de) ; call Close(_) ; call cancel()]
-//@                         when e == nil && e2 == nil && de != nil && ret1 == de -> exit
+//@                       call json.NewDecoder(bind_rd) as (dec) ; call Decode(dec, _) as (de) ; call Close(bind_cl) ; call cancel()]
+//@                         when e == nil && e2 == nil && rd == resp.Body && cl == resp.Body && de != nil && ret1 == de -> exit
 //@   entry row notobj:  [call context.WithTimeout(ctx, c.dataTimeout) as (c2, cf) ; call http.NewRequestWithContext(c2, "GET", url, _) as (rq, e) ; call Do(c.client, rq) as (resp, e2) ;
-//@                       call json.NewDecoder(_) as (dec) ; call Decode(dec, _) as (de) ; call Close(_) ; call cancel()]
-//@                         when e == nil && e2 == nil && de == nil && ret0 == nil && ret1 == errNoJSONObject && ret1 != nil -> exit
+//@                       call json.NewDecoder(bind_rd) as (dec) ; call Decode(dec, _) as (de) ; call Close(bind_cl) ; call cancel()]
+//@                         when e == nil && e2 == nil && rd == resp.Body && cl == resp.Body && de == nil && ret0 == nil && ret1 == errNoJSONObject && ret1 != nil -> exit
 //@   entry row object:  [call context.WithTimeout(ctx, c.dataTimeout) as (c2, cf) ; call http.NewRequestWithContext(c2, "GET", url, _) as (rq, e) ; call Do(c.client, rq) as (resp, e2) ;
-//@                       call json.NewDecoder(_) as (dec) ; call Decode(dec, _) as (de) ; call Close(_) ; call cancel()]
-//@                         when e == nil && e2 == nil && de == nil && ret0 != nil && ret1 == nil -> exit
+//@                       call json.NewDecoder(bind_rd) as (dec) ; call Decode(dec, _) as (de) ; call Close(bind_cl) ; call cancel()]
+//@                         when e == nil && e2 == nil && rd == resp.Body && cl == resp.Body && de == nil && ret0 != nil && ret1 == nil -> exit
 
 // URLs: proto://host/ and proto://host/_aliases
 //@ func (*elasticClient).GetInfo
@@ -76,14 +76,14 @@ package elastic
 // library escaping), with no post-processing
 //@ func (*ScanResult).MarshalJSON
 //@   sig r
-//@   props C14
+//@   props C14 C01 C02 C08 C10 C12
 //@   observe json.Marshal
 //@   entry row marshal: [call json.Marshal(bind_x) as (b, e)] when ret0 == b && ret1 == e -> exit
 
 // plain-text form of a record: printing never panics, whatever the scanned host put into the record (C10 C08)
 //@ func (*ScanResult).String
 //@   sig r
-//@   props C10 C08
+//@   props C10 C08 C01 C02 C12 C14
 
 // option constructors: each returns its own option closure over exactly its argument (verified here, inlined at call sites)
 //@ func WithDataTimeout
